@@ -959,7 +959,7 @@ def eval_meta(ctx, exe, cases, stats, hist):
             continue
         stats["meta_violations"] = stats.get("meta_violations", 0) + 1
         rc = c
-        if shrunk < 2:
+        if shrunk < 2 and "aborts / hangs" not in why and "garbage" not in why:
             shrunk += 1
             rc = shrink_meta(ctx, exe, c)
             if rc is not c:
